@@ -122,49 +122,56 @@ func posOf(ts []*Tree, p func(*Tree) bool) int {
 	return -1
 }
 
-func genFilterCases(r *rand.Rand, n int, which string) []Rec {
-	var out []Rec
-	bias, prop, kindName, code := "stk", "C07", "CStkDecorator", "err 0 1"
+func evalFilter(which string, h int64, ts []*Tree) Rec {
+	prop, kindName, code := "C07", "CStkDecorator", "err 0 1"
 	var dec sdk.AnteDecorator = poaante.NewPOADisableStakingDecorator()
 	pred := isBlockedStaking
 	if which == "wd" {
-		bias, prop, kindName, code = "wd", "C08", "CWdDecorator", "err 0 5"
+		prop, kindName, code = "C08", "CWdDecorator", "err 0 5"
 		dec = poaante.NewPOADisableWithdrawDelegatorRewards()
 		pred = isWithdraw
+	}
+	impl := runDecorator(dec, h, ts)
+	rec := Rec{Prop: prop, Kind: which, Case: fmt.Sprintf("(%s %d %s)", kindName, h, treesSx(ts)), Impl: impl, MonitorOK: true}
+	has := anyTree(ts, func(t *Tree) bool { return t.anyLeaf(pred) })
+	bad := anyTree(ts, func(t *Tree) bool { return t.hasBadUnpack() })
+	switch {
+	case h <= 1:
+		if impl != "pass" {
+			rec.MonitorOK, rec.Sig, rec.Detail = false, prop+"/rejected-at-genesis-height", "height<=1 must pass"
+		}
+	case has && !bad:
+		if impl != code {
+			rec.MonitorOK, rec.Sig = false, prop+"/not-rejected/via="+viaSig(ts, pred)
+			rec.Detail = "tree contains a forbidden message, expected " + code
+		}
+	case has && bad:
+		if impl == "pass" || impl == "panic" {
+			rec.MonitorOK, rec.Sig = false, prop+"/not-rejected/via="+viaSig(ts, pred)
+		}
+	case !has && !bad:
+		if impl != "pass" {
+			rec.MonitorOK, rec.Sig, rec.Detail = false, prop+"/false-reject", "no forbidden message in the tree"
+		}
+	}
+	d := maxDepth(ts)
+	rec.Nontrivial = h > 1 && has && d >= 2 && (posOf(ts, pred) != 0 || len(ts) == 1)
+	rec.Tags = []string{fmt.Sprintf("depth=%d", d), fmt.Sprintf("h=%d", h), fmt.Sprintf("has=%v", has), fmt.Sprintf("bad=%v", bad), fmt.Sprintf("nmsgs=%d", len(ts))}
+	return rec
+}
+
+func genFilterCases(r *rand.Rand, n int, which string) []Rec {
+	var out []Rec
+	bias := "stk"
+	if which == "wd" {
+		bias = "wd"
 	}
 	g := &treeGen{r: r, rates: []*big.Int{big.NewInt(0), ten18}, leafBias: bias}
 	for i := 0; i < n; i++ {
 		g.pBad = pick(r, []float64{0, 0, 0, 0.05})
 		g.pInterest = pick(r, []float64{0, 0.02, 0.1, 0.3})
 		ts := g.msgs()
-		h := pick(r, heights)
-		impl := runDecorator(dec, h, ts)
-		rec := Rec{Prop: prop, Kind: which, Case: fmt.Sprintf("(%s %d %s)", kindName, h, treesSx(ts)), Impl: impl, MonitorOK: true}
-		has := anyTree(ts, func(t *Tree) bool { return t.anyLeaf(pred) })
-		bad := anyTree(ts, func(t *Tree) bool { return t.hasBadUnpack() })
-		switch {
-		case h <= 1:
-			if impl != "pass" {
-				rec.MonitorOK, rec.Sig, rec.Detail = false, prop+"/rejected-at-genesis-height", "height<=1 must pass"
-			}
-		case has && !bad:
-			if impl != code {
-				rec.MonitorOK, rec.Sig = false, prop+"/not-rejected/via="+viaSig(ts, pred)
-				rec.Detail = "tree contains a forbidden message, expected " + code
-			}
-		case has && bad:
-			if impl == "pass" || impl == "panic" {
-				rec.MonitorOK, rec.Sig = false, prop+"/not-rejected/via="+viaSig(ts, pred)
-			}
-		case !has && !bad:
-			if impl != "pass" {
-				rec.MonitorOK, rec.Sig, rec.Detail = false, prop+"/false-reject", "no forbidden message in the tree"
-			}
-		}
-		d := maxDepth(ts)
-		rec.Nontrivial = h > 1 && has && d >= 2 && posOf(ts, pred) != 0 || (h > 1 && has && d >= 2 && len(ts) == 1)
-		rec.Tags = []string{fmt.Sprintf("depth=%d", d), fmt.Sprintf("h=%d", h), fmt.Sprintf("has=%v", has), fmt.Sprintf("bad=%v", bad), fmt.Sprintf("nmsgs=%d", len(ts))}
-		out = append(out, rec)
+		out = append(out, evalFilter(which, pick(r, heights), ts))
 	}
 	return out
 }
@@ -209,6 +216,61 @@ func collectRated(ts []*Tree, f func(t *Tree)) {
 	}
 }
 
+func evalComm(gentx bool, lo, hi *big.Int, h int64, ts []*Tree) Rec {
+	cfg := commCfg{lo, hi}
+	dec := poaante.NewCommissionLimitDecorator(gentx, decOf(cfg.lo), decOf(cfg.hi))
+	impl := runDecorator(dec, h, ts)
+	rec := Rec{Prop: "C09", Kind: "comm", Impl: impl, MonitorOK: true,
+		Case: fmt.Sprintf("(CCommDecorator %s %s %s %d %s)", sxBool(gentx), cfg.lo, cfg.hi, h, treesSx(ts))}
+	nRated, nBadRate, nNil, firstBadIdx, idx := 0, 0, 0, -1, 0
+	collectRated(ts, func(t *Tree) {
+		if t.Rate == nil {
+			nNil++
+		} else {
+			nRated++
+			if !inRange(t.Rate, cfg.lo, cfg.hi) {
+				nBadRate++
+				if firstBadIdx < 0 {
+					firstBadIdx = idx
+				}
+			}
+		}
+		idx++
+	})
+	bad := anyTree(ts, func(t *Tree) bool { return t.hasBadUnpack() })
+	exempt := !gentx && h <= 1
+	via := viaSig(ts, func(t *Tree) bool {
+		return (t.Leaf == "edit" || t.Leaf == "poacreate") && t.Rate != nil && !inRange(t.Rate, cfg.lo, cfg.hi)
+	})
+	switch {
+	case impl == "panic":
+		rec.MonitorOK, rec.Sig, rec.Detail = false, "C09/panic", "the check crashed"
+		if nNil > 0 {
+			rec.Sig = "C09/panic/nil-rate"
+		}
+	case exempt:
+		if impl != "pass" {
+			rec.MonitorOK, rec.Sig = false, "C09/rejected-exempt-genesis-tx"
+		}
+	case nBadRate > 0:
+		if impl == "pass" {
+			rec.MonitorOK = false
+			if firstBadIdx > 0 && (via == "top-level" || via == "WAuthzExec") {
+				rec.Sig = "C09/accepted-out-of-range/after-earlier-commission-message"
+			} else {
+				rec.Sig = "C09/accepted-out-of-range/via=" + via
+			}
+		}
+	case !bad:
+		if impl != "pass" {
+			rec.MonitorOK, rec.Sig, rec.Detail = false, "C09/false-reject", "every rate set is within range"
+		}
+	}
+	rec.Nontrivial = !exempt && (nRated >= 2 || nNil > 0)
+	rec.Tags = []string{fmt.Sprintf("depth=%d", maxDepth(ts)), fmt.Sprintf("h=%d", h), fmt.Sprintf("rated=%d", nRated), fmt.Sprintf("out=%d", nBadRate), fmt.Sprintf("nil=%d", nNil), fmt.Sprintf("gentx=%v", gentx), fmt.Sprintf("eq=%v", cfg.lo.Cmp(cfg.hi) == 0)}
+	return rec
+}
+
 func genCommCases(r *rand.Rand, n int) []Rec {
 	var out []Rec
 	cfgs := []commCfg{
@@ -222,58 +284,7 @@ func genCommCases(r *rand.Rand, n int) []Rec {
 		g.pBad = pick(r, []float64{0, 0, 0, 0.05})
 		g.pInterest = pick(r, []float64{0.1, 0.3, 0.6})
 		ts := g.msgs()
-		h := pick(r, heights)
-		dec := poaante.NewCommissionLimitDecorator(gentx, decOf(cfg.lo), decOf(cfg.hi))
-		impl := runDecorator(dec, h, ts)
-		rec := Rec{Prop: "C09", Kind: "comm", Impl: impl, MonitorOK: true,
-			Case: fmt.Sprintf("(CCommDecorator %s %s %s %d %s)", sxBool(gentx), cfg.lo, cfg.hi, h, treesSx(ts))}
-		nRated, nBadRate, nNil, firstBadIdx, idx := 0, 0, 0, -1, 0
-		collectRated(ts, func(t *Tree) {
-			if t.Rate == nil {
-				nNil++
-			} else {
-				nRated++
-				if !inRange(t.Rate, cfg.lo, cfg.hi) {
-					nBadRate++
-					if firstBadIdx < 0 {
-						firstBadIdx = idx
-					}
-				}
-			}
-			idx++
-		})
-		bad := anyTree(ts, func(t *Tree) bool { return t.hasBadUnpack() })
-		exempt := !gentx && h <= 1
-		via := viaSig(ts, func(t *Tree) bool {
-			return (t.Leaf == "edit" || t.Leaf == "poacreate") && t.Rate != nil && !inRange(t.Rate, cfg.lo, cfg.hi)
-		})
-		switch {
-		case impl == "panic":
-			rec.MonitorOK, rec.Sig, rec.Detail = false, "C09/panic", "the check crashed"
-			if nNil > 0 {
-				rec.Sig = "C09/panic/nil-rate"
-			}
-		case exempt:
-			if impl != "pass" {
-				rec.MonitorOK, rec.Sig = false, "C09/rejected-exempt-genesis-tx"
-			}
-		case nBadRate > 0:
-			if impl == "pass" {
-				rec.MonitorOK = false
-				if firstBadIdx > 0 && via == "top-level" || firstBadIdx > 0 && via == "WAuthzExec" {
-					rec.Sig = "C09/accepted-out-of-range/after-earlier-commission-message"
-				} else {
-					rec.Sig = "C09/accepted-out-of-range/via=" + via
-				}
-			}
-		case !bad:
-			if impl != "pass" {
-				rec.MonitorOK, rec.Sig, rec.Detail = false, "C09/false-reject", "every rate set is within range"
-			}
-		}
-		rec.Nontrivial = !exempt && (nRated >= 2 || nNil > 0)
-		rec.Tags = []string{fmt.Sprintf("depth=%d", maxDepth(ts)), fmt.Sprintf("h=%d", h), fmt.Sprintf("rated=%d", nRated), fmt.Sprintf("out=%d", nBadRate), fmt.Sprintf("nil=%d", nNil), fmt.Sprintf("gentx=%v", gentx), fmt.Sprintf("eq=%v", cfg.lo.Cmp(cfg.hi) == 0)}
-		out = append(out, rec)
+		out = append(out, evalComm(gentx, cfg.lo, cfg.hi, pick(r, heights), ts))
 	}
 	return out
 }
@@ -307,43 +318,86 @@ func powerBoundaries(r *rand.Rand) uint64 {
 	return pick(r, bs)
 }
 
+func evalSetPower(ok bool, addr string, p uint64) Rec {
+	maxI64 := uint64(1<<63 - 1)
+	m := poa.MsgSetPower{Sender: "x", ValidatorAddress: addr, Power: p}
+	impl := outcomeOf(catch(func() error { return m.Validate(valCodec) }))
+	rec := Rec{Prop: "C14", Kind: "setpower_validate", Impl: impl, MonitorOK: true,
+		Case: fmt.Sprintf("(CSetPowerValidate %s %d)", sxBool(ok), p)}
+	if ok {
+		switch {
+		case p < 1_000_000:
+			if impl != "err 0 2" {
+				rec.MonitorOK, rec.Sig = false, "C14/below-minimum-not-rejected"
+			}
+		case p > maxI64:
+			if impl == "pass" || impl == "panic" {
+				rec.MonitorOK, rec.Sig = false, "C14/power-above-int64-accepted"
+			}
+		default:
+			if impl != "pass" {
+				rec.MonitorOK, rec.Sig = false, "C14/valid-power-rejected"
+			}
+		}
+	} else if impl == "pass" {
+		rec.MonitorOK, rec.Sig = false, "C14/bad-address-accepted"
+	}
+	rec.Nontrivial = ok && (p >= 999_999)
+	rec.Tags = []string{fmt.Sprintf("addr=%v", ok)}
+	return rec
+}
+
 func genSetPowerValidate(r *rand.Rand, n int) []Rec {
 	var out []Rec
-	maxI64 := uint64(1<<63 - 1)
 	for i := 0; i < n; i++ {
 		ok := r.Intn(5) != 0
 		addr := goodValAddr(r)
 		if !ok {
 			addr = badAddr(r)
 		}
-		p := powerBoundaries(r)
-		m := poa.MsgSetPower{Sender: "x", ValidatorAddress: addr, Power: p}
-		impl := outcomeOf(catch(func() error { return m.Validate(valCodec) }))
-		rec := Rec{Prop: "C14", Kind: "setpower_validate", Impl: impl, MonitorOK: true,
-			Case: fmt.Sprintf("(CSetPowerValidate %s %d)", sxBool(ok), p)}
-		if ok {
-			switch {
-			case p < 1_000_000:
-				if impl != "err 0 2" {
-					rec.MonitorOK, rec.Sig = false, "C14/below-minimum-not-rejected"
-				}
-			case p > maxI64:
-				if impl == "pass" || impl == "panic" {
-					rec.MonitorOK, rec.Sig = false, "C14/power-above-int64-accepted"
-				}
-			default:
-				if impl != "pass" {
-					rec.MonitorOK, rec.Sig = false, "C14/valid-power-rejected"
-				}
-			}
-		} else if impl == "pass" {
-			rec.MonitorOK, rec.Sig = false, "C14/bad-address-accepted"
-		}
-		rec.Nontrivial = ok && (p >= 999_999)
-		rec.Tags = []string{fmt.Sprintf("addr=%v", ok)}
-		out = append(out, rec)
+		out = append(out, evalSetPower(ok, addr, powerBoundaries(r)))
 	}
 	return out
+}
+
+// evalCaseSx re-executes a stored case (corpus, replay) on the current tree.
+func evalCaseSx(line string) (Rec, error) {
+	x, err := parseSx(line)
+	if err != nil {
+		return Rec{}, err
+	}
+	i64 := func(a *Sx) int64 { var v int64; fmt.Sscan(a.Atom, &v); return v }
+	switch x.head() {
+	case "CStkDecorator", "CWdDecorator":
+		ts, err := treesFromSx(x.arg(1))
+		if err != nil {
+			return Rec{}, err
+		}
+		which := "stk"
+		if x.head() == "CWdDecorator" {
+			which = "wd"
+		}
+		return evalFilter(which, i64(x.arg(0)), ts), nil
+	case "CCommDecorator":
+		ts, err := treesFromSx(x.arg(4))
+		if err != nil {
+			return Rec{}, err
+		}
+		return evalComm(x.arg(0).boolean(), bigFromStr(x.arg(1).Atom), bigFromStr(x.arg(2).Atom), i64(x.arg(3)), ts), nil
+	case "CSetPowerValidate":
+		ok := x.arg(0).boolean()
+		addr := "cosmosvaloper1qqqqqqqqqqqqqqqqqqqqqqqqqqqqqqqq7cldvs"
+		if b, err := valCodec.BytesToString(make([]byte, 20)); err == nil {
+			addr = b
+		}
+		if !ok {
+			addr = "foo"
+		}
+		var p uint64
+		fmt.Sscan(x.arg(1).Atom, &p)
+		return evalSetPower(ok, addr, p), nil
+	}
+	return Rec{}, fmt.Errorf("case kind %q cannot be replayed", x.head())
 }
 
 // ---- C15: validation parity with x/staking ----
@@ -540,6 +594,7 @@ func cmdPure(args []string) error {
 	n := 2000
 	kinds := "stk,wd,comm,setpower,commission,create,params"
 	out := "pure.jsonl"
+	corpus := ""
 	for i := 0; i+1 < len(args); i += 2 {
 		switch args[i] {
 		case "-seed":
@@ -550,9 +605,33 @@ func cmdPure(args []string) error {
 			kinds = args[i+1]
 		case "-out":
 			out = args[i+1]
+		case "-corpus":
+			corpus = args[i+1]
 		}
 	}
 	var recs []Rec
+	if corpus != "" {
+		if data, err := os.ReadFile(corpus); err == nil {
+			for _, line := range strings.Split(string(data), "\n") {
+				line = strings.TrimSpace(line)
+				if line == "" || line[0] == '#' {
+					continue
+				}
+				rec, err := evalCaseSx(line)
+				if err != nil {
+					return fmt.Errorf("corpus %q: %w", line, err)
+				}
+				keep := false
+				for _, k := range strings.Split(kinds, ",") {
+					keep = keep || rec.Kind == k || (k == "setpower" && rec.Kind == "setpower_validate")
+				}
+				if keep {
+					rec.Tags = append(rec.Tags, "corpus")
+					recs = append(recs, rec)
+				}
+			}
+		}
+	}
 	for _, k := range strings.Split(kinds, ",") {
 		r := rand.New(rand.NewSource(seed*1000003 + int64(len(k))*7919 + int64(k[0])))
 		switch k {
